@@ -500,6 +500,7 @@ pub fn execute(case: &AutoCase) -> AutoRun {
             );
         }
         let mut allocs: BTreeMap<String, AllocModel> = BTreeMap::new();
+        let mut last_kind: BTreeMap<String, AKind> = BTreeMap::new();
         let mut now_s: u64 = 0;
         let mut demand: BTreeMap<usize, Vec<TaskId>> = BTreeMap::new(); // kind -> waiting tasks
         let mut next_job: u32 = 1;
@@ -625,10 +626,17 @@ pub fn execute(case: &AutoCase) -> AutoRun {
                     let script = b.status_script.clone();
                     let ge = b.status_global_error;
                     drop(b);
-                    sim.periodic_update().await;
+                    // a streak: the same answers for many updates in a row (status-error streaks
+                    // end in giving the allocation up)
+                    let reps = if sub(a, 2, 5) == 0 { [11usize, 21, 26][sub(a, 1, 3)] } else { 1 };
+                    if reps > 1 {
+                        run.classes.insert("status-streak".into());
+                    }
+                    for _rep in 0..reps {
                     // model of the documented transition table; the update only happens while
                     // at least one queue is active (as in the autoalloc event loop)
-                    let any_active = snap_before.iter().any(|q| !q.paused);
+                    let any_active = sim.snapshot().iter().any(|q| !q.paused);
+                    sim.periodic_update().await;
                     let snap = sim.snapshot();
                     let mut evs: BTreeMap<QueueId, Vec<LimEv>> = BTreeMap::new();
                     for q in &snap {
@@ -676,8 +684,24 @@ pub fn execute(case: &AutoCase) -> AutoRun {
                                 m.status_errors += 1;
                             }
                         }
+                        // an allocation with status errors is given up after a number of them
+                        // that the statement does not fix: the model follows the real state there
+                        for q in &snap {
+                            for al in &q.allocations {
+                                if let Some(m) = allocs.get_mut(&al.id) {
+                                    if m.status_errors > 0
+                                        && m.kind < AKind::Finished
+                                        && kind_of(al) >= AKind::Finished
+                                    {
+                                        m.kind = kind_of(al);
+                                        m.finished_step = Some(step);
+                                    }
+                                }
+                            }
+                        }
                     }
-                    format!("periodic update global_error={ge} script={script:?}")
+                    }
+                    format!("periodic update x{reps} global_error={ge} script={script:?}")
                 }
                 58..=72 => {
                     // worker connects from a known or unknown allocation
@@ -824,6 +848,10 @@ pub fn execute(case: &AutoCase) -> AutoRun {
                     let _ = r.await;
                     if let Some(qm) = queues.get_mut(&q) {
                         qm.paused_by_user = true;
+                    }
+                    // a queue that the user pauses again is not expected to submit
+                    if expect_resume_submit == Some(q) {
+                        expect_resume_submit = None;
                     }
                     format!("pause queue {q}")
                 }
@@ -1092,8 +1120,32 @@ pub fn execute(case: &AutoCase) -> AutoRun {
                     };
                     let k = kind_of(al);
                     if m.undefined_history || m.status_errors > 0 {
+                        // outside the modelled part of the life-cycle (status errors, loss while
+                        // queued): what does not depend on *when* the allocation ends still holds
+                        if let Some(prev) = last_kind.get(&al.id) {
+                            if k < *prev {
+                                alarm(&mut run, "C18", "allocation moved backwards in its life-cycle", format!("step {step}: {} was {prev:?}, is {k:?}", al.id));
+                            } else if *prev >= AKind::Finished && k != *prev {
+                                alarm(&mut run, "C18", "allocation left a finished state", format!("step {step}: {} was {prev:?}, is {k:?}", al.id));
+                            }
+                        }
+                        last_kind.insert(al.id.clone(), k);
+                        let finished = k >= AKind::Finished;
+                        if finished && m.finished_events != 1 {
+                            alarm(&mut run, "C18", "end of an allocation not announced exactly once", format!("step {step}: {} is {k:?} (after status errors), {} end announcements", al.id, m.finished_events));
+                        }
+                        if !finished && m.finished_events != 0 {
+                            alarm(&mut run, "C18", "end of an allocation announced although it is still active", format!("step {step}: {}", al.id));
+                        }
+                        if m.started_events > 1 {
+                            alarm(&mut run, "C18", "start of an allocation announced more than once", format!("step {step}: {}", al.id));
+                        }
+                        if finished && m.status_errors > 10 {
+                            run.classes.insert("given-up-after-status-errors".into());
+                        }
                         continue;
                     }
+                    last_kind.insert(al.id.clone(), k);
                     if k != m.kind {
                         let sig = if k < m.kind {
                             "allocation moved backwards in its life-cycle"
